@@ -380,3 +380,32 @@ func VerifH_C17_metaOwner() {
 		vAssert(m["version"] == 2 && m["user"] == "u" && m["uid"] == osm.UserID(7) && m["changeset"] == osm.ChangesetID(9), "node-feature-carries-node-meta")
 	}
 }
+
+// VerifH_C17_identity: feature id string, "type" and "id" properties are those of the
+// element, also for ids beyond the 40 bits a packed feature id can hold.
+func VerifH_C17_identity() {
+	big := int64(1) << 41
+	nid, wid, rid := osm.NodeID(big+5), osm.WayID(big+6), osm.RelationID(big+7)
+	if vRange("smallIDs", 0, 1) == 1 {
+		nid, wid, rid = 5, 6, 7
+	}
+	o := &osm.OSM{
+		Nodes: osm.Nodes{{ID: nid, Version: 1, Lon: 1, Lat: 2, Tags: osm.Tags{{Key: "amenity", Value: "cafe"}}},
+			{ID: 2, Version: 1, Lon: 3, Lat: 4}, {ID: 3, Version: 1, Lon: 5, Lat: 6}},
+		Ways:      osm.Ways{{ID: wid, Version: 1, Nodes: osm.WayNodes{{ID: 2}, {ID: 3}}, Tags: osm.Tags{{Key: "highway", Value: "path"}}}},
+		Relations: osm.Relations{{ID: rid, Version: 1, Tags: osm.Tags{{Key: "type", Value: "route"}}, Members: osm.Members{{Type: osm.TypeWay, Ref: int64(wid)}}}},
+	}
+	fc, err := Convert(o)
+	vReach("converted")
+	vAssert(err == nil, "no-error")
+	check := func(typ string, id int64) {
+		fs := featuresOf(fc, typ, int(id))
+		vAssert(len(fs) == 1, "feature-carries-type-and-id-of-its-element")
+		if len(fs) == 1 {
+			vAssert(fs[0].ID == typ+"/"+vDec(id), "feature-id-string")
+		}
+	}
+	check("node", int64(nid))
+	check("way", int64(wid))
+	check("relation", int64(rid))
+}
